@@ -7,7 +7,7 @@ Monitor at the get_readout_circuit boundary; oracle = independent tableau: all 2
 import itertools
 import random
 
-from ..core import Partial, call, exc_name
+from ..core import Partial, call, exc_name, Retained
 from ..oracle import conn as oconn, groups, lcorbit
 from ..oracle.pauli import gates_of, conj_circuit, group_elements, inverse_gates, state_of, UnknownGate, to_str
 from ..oracle.circ import fmt as fmt_gates
@@ -47,7 +47,7 @@ def plan(tier, seed):
     return t
 
 
-def check_case(case, rnd):
+def check_case(case, rnd, retain=None):
     from htstabilizer.stabilizer_circuits import get_readout_circuit
     n = case["n"]
     vs = []
@@ -60,6 +60,8 @@ def check_case(case, rnd):
         return [("readout-raises n=%d conn=%s" % (n, case["conn"]),
                  "get_readout_circuit raised %s (%s) on valid stabilizer %s" % (exc_name(qc), qc, ws.strings(case["gens"], n)))], 0
     gates = gates_of(qc)
+    if retain is not None:
+        retain.add(qc, {"case": wp.case_json(case), "requested": ws.strings(case["gens"], n)})
     calls = 1
     try:
         bad = [e for e in group_elements(case["gens"]) if conj_circuit(e, gates)[0] != 0]
@@ -103,10 +105,12 @@ def check_case(case, rnd):
 
 
 def work(task):
+    from .c01 import digest_circuit, retention_verdicts
     p = Partial()
     rnd = random.Random(repr(task[-2:]))
+    retain = Retained(digest_circuit, 600)
     for case in wp.iter_cases(task):
-        vs, calls = check_case(case, rnd)
+        vs, calls = check_case(case, rnd, retain)
         p.evals += max(calls, 1)
         p.counters["conf %d-%s" % (case["n"], case["conn"])] += 1
         p.counters["fmt " + case["fmt"]] += 1
@@ -122,6 +126,7 @@ def work(task):
             p.violate(key, what, wp.case_json(case))
         if len(p.samples) < 2:
             p.sample(wp.sample_of(case))
+    retention_verdicts(p, retain, "readout")
     return p
 
 
